@@ -6,6 +6,10 @@
 (*   ok    Parser.parse returned                  tree  its projection (<<>> if not ok)     *)
 (*   cur   Parser.current at return (0-based)     md_ok model_description accepted the text *)
 (*   want  the tree the sentence was generated from (<<>> if unknown, e.g. mutated input)   *)
+(*   calls every call of a Parser method observed with sys.setprofile, as                     *)
+(*         <<level, Parser.current at entry, returned normally?, Parser.current at return>>    *)
+(*         (0-based positions; <<>> when not recorded).  Each must be the step the Impl layer  *)
+(*         takes from that position at that level: P(toks, cur, level) -- drift, not a verdict *)
 (* Verdicts are total: every event gets a clause name; "none" means conforming.  Events are  *)
 (* independent, so the trace machine has exactly one successor per consumed event.           *)
 EXTENDS Grammar, Json, IOUtils
@@ -21,11 +25,19 @@ Clause(e) ==
   ELSE IF Len(e.toks) <= 7 /\ ~(e.tree \in Trees(e.toks)) THEN "not_in_tree_set"
   ELSE "none"
 
+\* step-level conformance with the Impl layer (one spec operator per parser method)
+StepDrift(e) ==
+  LET te == e.toks \o <<"EOF">> IN
+    \E k \in 1..Len(e.calls) :
+      LET c == e.calls[k]
+          r == P(te, c[2] + 1, c[1])
+      IN r.ok # c[3] \/ (r.ok /\ r.cur # c[4] + 1)
 Init == i = 1 /\ nbad = 0
 Step ==
   /\ i <= Len(Ev)
   /\ LET c == Clause(Ev[i]) IN
        /\ (c # "none") => PrintT(<<"FV", "bad", Ev[i].id, c>>)
+       /\ (Len(Ev[i].calls) > 0 /\ StepDrift(Ev[i])) => PrintT(<<"FV", "drift", Ev[i].id>>)
        /\ nbad' = IF c = "none" THEN nbad ELSE nbad + 1
   /\ i' = i + 1
 Done == i = Len(Ev) + 1 /\ PrintT(<<"FV", "done", Len(Ev), nbad>>) /\ UNCHANGED <<i, nbad>>
